@@ -2,6 +2,7 @@ package main
 
 import (
 	"encoding/json"
+	"math/big"
 	"strconv"
 	"strings"
 
@@ -23,6 +24,7 @@ type act struct {
 	id        int
 	ck        string // call callcode delegatecall staticcall
 	value     int
+	vbig      *big.Int // a value that does not fit an int (256-bit boundary lattice); overrides value
 	two       bool
 	salt      int
 	auth      string // "-" or authority name
@@ -30,7 +32,19 @@ type act struct {
 	body      *frame
 }
 
+func amt(small int, big_ *big.Int) *big.Int {
+	if big_ != nil {
+		return big_
+	}
+	return big.NewInt(int64(small))
+}
+
+func (a *act) val() *big.Int { return amt(a.value, a.vbig) }
+func (t *txn) val() *big.Int { return amt(t.value, t.vbig) }
+func (a acct) bal() *big.Int { return amt(a.balance, a.bbig) }
+
 type txn struct {
+	vbig   *big.Int
 	hash   int
 	origin string
 	create bool
@@ -45,6 +59,7 @@ type acct struct {
 	kind    string // e h m p
 	n       int
 	balance int
+	bbig    *big.Int // a balance that does not fit an int; overrides balance
 }
 
 type block struct {
@@ -82,7 +97,7 @@ func (b *block) forkLine() string {
 func (b *block) resetLine() string {
 	t := []string{"reset", b2s(b.cfg.p013), b2s(b.cfg.p007), b2s(b.cfg.cbn)}
 	for _, a := range b.accounts {
-		t = append(t, a.kind, "b"+strconv.Itoa(a.n), strconv.Itoa(a.balance))
+		t = append(t, a.kind, "b"+strconv.Itoa(a.n), a.bal().String())
 	}
 	return strings.Join(t, " ")
 }
@@ -98,13 +113,13 @@ func (f *frame) toks(out []string) []string {
 			out = append(out, "D", a.addr)
 			return out // halts: nothing after it is part of the program
 		case 'C':
-			out = append(out, "C", strconv.Itoa(a.id), a.ck, a.addr, strconv.Itoa(a.value))
+			out = append(out, "C", strconv.Itoa(a.id), a.ck, a.addr, a.val().String())
 			out = a.body.toks(out)
 		case 'N':
-			out = append(out, "N", strconv.Itoa(a.id), b2s(a.two), strconv.Itoa(a.salt), strconv.Itoa(a.value))
+			out = append(out, "N", strconv.Itoa(a.id), b2s(a.two), strconv.Itoa(a.salt), a.val().String())
 			out = a.body.toks(out)
 		case 'A':
-			out = append(out, "A", strconv.Itoa(a.id), a.auth, strconv.Itoa(a.authNonce), a.addr, strconv.Itoa(a.value))
+			out = append(out, "A", strconv.Itoa(a.id), a.auth, strconv.Itoa(a.authNonce), a.addr, a.val().String())
 			out = a.body.toks(out)
 		case 'K', 'U':
 			out = append(out, string(a.kind), strconv.Itoa(a.k))
@@ -126,9 +141,9 @@ func (f *frame) toks(out []string) []string {
 func (t *txn) line() string {
 	tk := []string{"tx", strconv.Itoa(t.hash), t.origin}
 	if t.create {
-		tk = append(tk, "create", strconv.Itoa(t.value))
+		tk = append(tk, "create", t.val().String())
 	} else {
-		tk = append(tk, "call", t.target, strconv.Itoa(t.value))
+		tk = append(tk, "call", t.target, t.val().String())
 	}
 	tk = t.body.toks(tk)
 	return strings.Join(tk, " ")
@@ -160,7 +175,7 @@ func (f *frame) mayBurnAll() bool {
 		if a.kind == 'V' || a.kind == 'Q' {
 			return true // UNSTAKEALL / STAKENUM fail the frame when there is no such miner
 		}
-		if a.kind == 'N' && (a.two || a.body.mayBurnAll()) {
+		if a.kind == 'N' && (a.two || createMayCollide || a.body.mayBurnAll()) {
 			return true
 		}
 	}
@@ -203,7 +218,7 @@ func (f *frame) need() uint64 {
 		case 'N':
 			g := a.body.need()
 			lo := g + g/32
-			if a.body.mayBurnAll() || a.two { // a CREATE2 may collide, and a collision takes all gas
+			if a.body.mayBurnAll() || a.two || createMayCollide { // a CREATE2 may collide, and a collision takes all gas
 				if 64*(n+k(cSimple)) > lo {
 					lo = 64 * (n + k(cSimple))
 				}
@@ -241,6 +256,7 @@ type gen struct {
 	withStake bool
 	flags     forkFlags
 	pre002    bool      // the searcher also visits heights before Proposal002 (balances are not journaled there)
+	rich      bool      // hosts and origin hold more than 2^70 wei, values come from the 256-bit lattice
 	forceDev  bool      // dev schedule, every proposal on
 	forceCfg  *blockCfg // exactly this configuration (blocks that are executed concurrently share the global fork configuration)
 	authNonce int       // predicted nonce of authority b30
@@ -249,6 +265,32 @@ type gen struct {
 func newGen(r *hx.Rng, st *stats) *gen { return &gen{r: r, st: st} }
 
 var hosts = []string{"b20", "b21", "b22", "b23", "b23"}
+
+func pow2(k uint) *big.Int { return new(big.Int).Lsh(big.NewInt(1), k) }
+
+// the 256-bit boundary lattice for value operands (wherever a 256-bit word is narrowed or sign-tested):
+// low 64 / 128 bits zero, just around 2^64, the top bit, the largest words
+func latticeValues() []*big.Int {
+	m := func(a *big.Int, k int64) *big.Int { return new(big.Int).Mul(a, big.NewInt(k)) }
+	sub := func(a, b *big.Int) *big.Int { return new(big.Int).Sub(a, b) }
+	add := func(a, b *big.Int) *big.Int { return new(big.Int).Add(a, b) }
+	one := big.NewInt(1)
+	return []*big.Int{pow2(64), m(pow2(64), 2), m(pow2(64), 3), m(pow2(64), 17), add(pow2(64), one), sub(pow2(64), one), pow2(63), pow2(65),
+		pow2(69), pow2(70), pow2(128), m(pow2(128), 5), pow2(192), pow2(255), sub(pow2(256), pow2(64)), sub(pow2(256), pow2(128)), sub(pow2(256), one)}
+}
+
+// richBalance: what a rich account holds (more than 2^70 wei, so that multiples of 2^64 are affordable)
+func richBalance(extra int64) *big.Int { return new(big.Int).Add(pow2(70), big.NewInt(extra)) }
+
+// pickValue chooses a value operand: the small pool, or in a rich block the 256-bit lattice
+func (g *gen) pickValue() (int, *big.Int) {
+	if g.rich && g.r.Chance(1, 2) {
+		l := latticeValues()
+		return 0, l[g.r.Intn(len(l))]
+	}
+	return valuePool[g.r.Intn(len(valuePool))], nil
+}
+
 var valuePool = []int{0, 0, 0, 1, 1, 2, 7, 49, 50, 51, 999, 1000, 1001, 5000}
 
 func (g *gen) block() *block {
@@ -297,12 +339,24 @@ func (g *gen) block() *block {
 	g.flags = setSchedule(cfg)
 	b := &block{cfg: cfg, salts: map[int]*frame{}}
 	b.accounts = []acct{
-		{"e", 10, 1000000}, {"e", 11, r.Pick(0, 3, 50)},
-		{"h", 20, r.Pick(1000, 1000, 7)}, {"h", 21, r.Pick(0, 0, 1)}, {"h", 22, 50}, {"h", 23, r.Pick(0, 7)},
-		{"e", 30, r.Pick(0, 5)},
+		{kind: "e", n: 10, balance: 1000000}, {kind: "e", n: 11, balance: r.Pick(0, 3, 50)},
+		{kind: "h", n: 20, balance: r.Pick(1000, 1000, 7)}, {kind: "h", n: 21, balance: r.Pick(0, 0, 1)}, {kind: "h", n: 22, balance: 50}, {kind: "h", n: 23, balance: r.Pick(0, 7)},
+		{kind: "e", n: 30, balance: r.Pick(0, 5)},
 	}
 	b.accounts = append(b.accounts, precAccounts()...)
-	if cfg.sched == "" && !g.forceDev && g.forceCfg == nil && r.Chance(1, 3) {
+	g.rich = false
+	if r.Chance(1, 4) {
+		g.rich = true
+		for i := range b.accounts {
+			switch b.accounts[i].n {
+			case 10:
+				b.accounts[i].bbig = new(big.Int).Mul(pow2(72), big.NewInt(3))
+			case 20, 21, 22, 23:
+				b.accounts[i].bbig = richBalance(int64(b.accounts[i].balance))
+			}
+		}
+	}
+	if cfg.sched == "" && !g.forceDev && g.forceCfg == nil && !g.rich && r.Chance(1, 3) {
 		// this block goes through the unmodified VMExecutor.Execute: one origin (the loop sorts by source),
 		// Proposal007 on, enough balance for gasLimit*gasPrice
 		b.real = true
@@ -334,7 +388,7 @@ func (g *gen) block() *block {
 func precAccounts() []acct {
 	var out []acct
 	for n := 101; n <= 118; n++ {
-		out = append(out, acct{"p", n, 0})
+		out = append(out, acct{kind: "p", n: n, balance: 0})
 	}
 	return out
 }
@@ -367,7 +421,7 @@ func (g *gen) tx(i int) *txn {
 		if r.Chance(1, 15) {
 			t.origin = "b11"
 		}
-		t.value = valuePool[r.Intn(len(valuePool))]
+		t.value, t.vbig = g.pickValue()
 		maxDepth := 1 + r.Intn(5)
 		if try > 3 {
 			maxDepth = 1 + r.Intn(2)
@@ -385,13 +439,13 @@ func (g *gen) tx(i int) *txn {
 			}
 			t.rootID = g.id()
 			if t.target == "prec" {
-				tmp := &act{kind: 'C', ck: "call", value: t.value}
+				tmp := &act{kind: 'C', ck: "call", value: t.value, vbig: t.vbig}
 				g.precTarget(tmp)
 				if tmp.body.end == "oog" && precPrice(precN(tmp.addr), false) == 0 {
 					tmp.body.end = "stop"
 				}
 				t.target, t.body = tmp.addr, tmp.body
-				if t.body.end == "oog" && t.value != 0 {
+				if t.body.end == "oog" && t.val().Sign() != 0 {
 					// a message call gets no stipend: gas 0 is below any non-zero price
 				}
 			} else if g.blk.isHost(t.target) {
@@ -522,7 +576,7 @@ func (g *gen) frame(depth, maxDepth int, self string, static, inCreate bool) *fr
 				a.authNonce = r.Intn(3)
 			}
 			if r.Chance(1, 3) && !pure {
-				a.value = valuePool[r.Intn(len(valuePool))]
+				a.value, a.vbig = g.pickValue()
 			}
 			if a.auth != "-" {
 				g.authNonce++ // the usual case: every authorized AUTHCALL so far was entered
@@ -545,9 +599,9 @@ func (g *gen) frame(depth, maxDepth int, self string, static, inCreate bool) *fr
 				a.addr = []string{"b11", "b40", "b41", "b104", "b10"}[r.Intn(5)]
 			}
 			if a.ck == "call" || a.ck == "callcode" {
-				a.value = valuePool[r.Intn(len(valuePool))]
+				a.value, a.vbig = g.pickValue()
 				if pure {
-					a.value = 0
+					a.value, a.vbig = 0, nil
 				}
 			}
 			if r.Chance(1, 6) {
@@ -567,7 +621,8 @@ func (g *gen) frame(depth, maxDepth int, self string, static, inCreate bool) *fr
 			if depth >= maxDepth || pure {
 				continue
 			}
-			a = &act{kind: 'N', id: g.id(), value: valuePool[r.Intn(len(valuePool))]}
+			a = &act{kind: 'N', id: g.id()}
+			a.value, a.vbig = g.pickValue()
 			if r.Chance(1, 3) {
 				a.two = true
 				a.salt = 1 + r.Intn(3)
